@@ -70,6 +70,8 @@ func runFamilies(e *env, prop, tag string, fam func(r *rng.R, id int) *famOut, b
 	if res.FragmentAsked > 0 {
 		e.rep.Note("%s: of %d generated programs, %d pass PathCheck.pathsOK (every error site carries its position: C07_path_is_position applies for ALL values), %d pass PlanCheck.checkProgU (C10_composite / C05_composite_ignored_unassigned apply), %d pass PlanCheck.checkProg (C02_composite / C04_composite apply)",
 			tag, res.FragmentAsked, res.PathsOK, res.InFragmentU, res.InFragment)
+		e.rep.Note("%s: %d pass CustomCheck.customsFirst (custom functions and declared methods first at every typed position: C06_every_occurrence applies), %d pass PlanCheckS.checkProgS (C04_skipcopy_composite applies; %d of them have a skipCopySameType sharing position)",
+			tag, res.CustomsFirst, res.InFragmentS, res.HasShare)
 		if res.PathsOK != res.FragmentAsked {
 			// pathsOK is a statement about the MODEL's generator (the emitted wrap paths are tied to the plan by the plan-level
 			// comparison): a plan outside it means Gv.Gen no longer produces what the C07 composite assumes
